@@ -124,6 +124,24 @@ def run_readers(tier, funcs, index, enums, res):
                          " and 5 bytes over {a, blank, newline, ', \\}" if tier == "thorough" else "", ", 4..5 bytes over 5 letters" if tier == "thorough" else ""))
 
 
+def run_glob(tier, funcs, index, enums, res):
+    import c12_glob
+    res["target"] = "glob_to_regex + extract_bracket_expr + regex_push_literal on symbolic patterns; the emitted BRE is evaluated on all subjects and compared with a reference fnmatch()"
+    for n in ([1, 2, 3, 4] if tier == "quick" else [1, 2, 3, 4, 5]):
+        r = c12_glob.explore(n, funcs, index, enums, subj_len=3 if n <= 4 else 2)
+        res["functions_executed"].update(r.pop("functions_executed"))
+        for v in r.pop("violations"):
+            res["violations"].append({"key": v["what"].split("(")[0][:30] + ("panic" if "panic" in v["what"] else ""), "summary": v["what"], "replayer": "glob_pattern",
+                                      "pattern": v.get("pattern"), "subject": v.get("subject"), "what": v["what"]})
+        for k, c in r.pop("unsupported").items():
+            res["unsupported"][k] = res["unsupported"].get(k, 0) + c
+        r["bound"] = "patterns of %d characters" % n
+        res["runs"].append(r)
+    res["bounds"] = ("every pattern of 1..%d characters over %r against every subject of 0..3 characters over %r; patterns with '[.', '[=', '[:' (collating symbols, "
+                     "classes) and '^' are excluded; onig's validation of a bracket expression is modelled as well-formedness" % (
+                         4 if tier == "quick" else 5, "".join(map(chr, c12_glob.PAT_ALPHA)), "".join(map(chr, c12_glob.SUBJ_ALPHA))))
+
+
 def main():
     prop, tier, out = sys.argv[1], sys.argv[2], sys.argv[3]
     t0 = time.time()
@@ -140,6 +158,8 @@ def main():
         run_exec(prop, tier, funcs, index, enums, res)
     elif prop == "C05":
         run_readers(tier, funcs, index, enums, res)
+    elif prop == "C12":
+        run_glob(tier, funcs, index, enums, res)
     else:
         raise SystemExit("no MIR-level check for " + prop)
     res["functions_executed"] = sorted(res["functions_executed"])
